@@ -16,10 +16,13 @@ by the correspondence harness on the real code):
   * selector evaluation is a parameter `matchSel : Sel → Labels → Bool`
     (the harness supplies its graph from the real parser; C06/C07 are about it);
     `Selector.Equal` is `=` on `Sel`;
-  * the scan strategies (`iterEndpointCandidates`, `AllPotentialMatches`) are
-    "every endpoint / every IP set, each once": the real strategies only skip
-    items whose selector evaluation is false (that soundness is C07), and
-    non-matching items have no effect in the loops that use them;
+  * the scan strategies (`iterEndpointCandidates` + `labelnamevalueindex.StrategyFor`,
+    `LabelRestrictionIndex.AllPotentialMatches`) are NOT modelled: the model visits every
+    endpoint / every IP set, each once.  This is faithful iff the real strategies never skip an
+    item whose selector evaluation is true and yield each item once (non-matching items have no
+    effect in the loops that use them).  No theorem covers that (C07 proves pruning soundness only
+    for its own `LabelRestrictionIndex` model); it is tied by the correspondence check (match
+    caches and refcounts after every op) and the from-scratch oracle;
   * the CIDR trie is the set of stored CIDRs with `Covers` / `ClosestDescendants`
     given by plain prefix arithmetic on (version, addr, len) (C36 is about the trie);
   * Go maps are association lists; Go's random map iteration order is covered by
